@@ -32,9 +32,9 @@ Step == /\ Recs[l].kind = "sattrace" /\ Recs[l].n = N /\ j < Len(Evs)
 Done == (j = Len(Evs) \/ Recs[l].kind # "sattrace") /\ UNCHANGED tvars
 TNext == Step \/ Done
 TSpec == TInit /\ [][TNext]_tvars
-\* the driver's claim: everything it recorded was a whole number of units
-DriverClaimSat == Recs[l].kind = "sattrace" => Recs[l].exact
-Conforms == err = ""
+\* everything recorded was a whole number of units (or a saturated word): otherwise the real writer keeps its books in
+\* some other way than the model -- mechanism drift, like any other step-level difference
+Conforms == err = "" /\ (Recs[l].kind = "sattrace" => Recs[l].exact)
 \* WHAT-level, from the call arguments and the observed outcome only (no queue, no track distribution): a piece that fits
 \* one delta time is written; a refused piece is longer than that
 ObservedOutcome == (Recs[l].kind = "sattrace" /\ j = Len(Evs)) =>
